@@ -161,7 +161,7 @@ func matchKnown(ks []knownFinding, v Violation) (string, bool) {
 		if k.Property != v.Property || (k.Clause != "" && k.Clause != v.Clause) {
 			continue
 		}
-		if k.Signature == v.Signature || (strings.HasSuffix(k.Signature, "*") && strings.HasPrefix(v.Signature, strings.TrimSuffix(k.Signature, "*"))) {
+		if globMatch(k.Signature, v.Signature) {
 			return k.Property + "|" + k.Clause + "|" + k.Signature, true
 		}
 	}
@@ -256,6 +256,8 @@ func Main(t *testing.T) {
 	progress := os.Getenv("VERIF_PROGRESS")
 	onlyWorld := os.Getenv("VERIF_WORLD")
 	detEvery := envInt("VERIF_DET_EVERY", 40)
+	collect := os.Getenv("VERIF_COLLECT") != ""
+	seenSig := map[string]bool{}
 
 	cl := claims[prop]
 	if len(cl) == 0 {
@@ -380,17 +382,40 @@ func Main(t *testing.T) {
 		if unknown == nil {
 			continue
 		}
+		if collect {
+			// triage mode: keep going, one replay per distinct (clause, signature)
+			unknown = nil
+			for k := range vs {
+				if _, ok := matchKnown(known, vs[k]); ok {
+					continue
+				}
+				key := vs[k].Clause + "|" + vs[k].Signature
+				if !seenSig[key] {
+					seenSig[key] = true
+					unknown = &vs[k]
+					break
+				}
+			}
+			if unknown == nil {
+				continue
+			}
+		}
 		// minimise and write the replay file
 		rf := minimise(t, w, prop, tier, script, cfg, ch.Seed(), ch.Rec, *unknown, known)
 		rf.Seed = seed
 		rf.Run = i
 		name := fmt.Sprintf("%s-%d-%d.json", prop, seed, i)
+		if collect {
+			name = fmt.Sprintf("%s-%d-%d-%d.json", prop, seed, i, len(out.Violations))
+		}
 		path := filepath.Join(replayDir, name)
 		b, _ := json.MarshalIndent(rf, "", " ")
 		_ = os.MkdirAll(replayDir, 0o755)
 		_ = os.WriteFile(path, b, 0o644)
 		out.Violations = append(out.Violations, WorkerViolation{Violation: *unknown, Replay: path})
-		break
+		if !collect {
+			break
+		}
 	}
 }
 
@@ -558,4 +583,19 @@ func diffLogs(a, b []string) string {
 		}
 	}
 	return fmt.Sprintf("logs equal for %d lines; lengths %d/%d", n, len(a), len(b))
+}
+
+// globMatch: exact match, or '*' at the start and/or end of the pattern.
+func globMatch(pat, s string) bool {
+	pre, suf := strings.HasPrefix(pat, "*"), strings.HasSuffix(pat, "*") && len(pat) > 1
+	core := strings.TrimSuffix(strings.TrimPrefix(pat, "*"), "*")
+	switch {
+	case pre && suf:
+		return strings.Contains(s, core)
+	case pre:
+		return strings.HasSuffix(s, core)
+	case suf:
+		return strings.HasPrefix(s, core)
+	}
+	return pat == s
 }
